@@ -67,6 +67,8 @@ def all_classes():
     cls = list(gen.kit_classes())
     for name, g in gen.enzymes():
         cls.extend(gen.generic_classes(name))
+    for name, g in gen.degenerate_enzymes():
+        cls.extend(gen.generic_classes(name))
     return cls
 
 
